@@ -96,7 +96,7 @@ func (f *fibStrategyTreeEntry) pruneIfEmpty() {
 	for curNode := f; curNode.parent != nil && len(curNode.children) == 0 && len(curNode.nexthops) == 0 && curNode.strategy == nil; curNode = curNode.parent {
 		// Remove from parent's children
 		for i, child := range curNode.parent.children {
-			if child == f {
+			if child == curNode {
 				if i < len(curNode.parent.children)-1 {
 					copy(curNode.parent.children[i:], curNode.parent.children[i+1:])
 				}
@@ -111,7 +111,7 @@ func (f *fibStrategyTreeEntry) pruneIfEmptyEnc() {
 		curNode.strategy == nil; curNode = curNode.parent {
 		// Remove from parent's children
 		for i, child := range curNode.parent.children {
-			if child == f {
+			if child == curNode {
 				if i < len(curNode.parent.children)-1 {
 					copy(curNode.parent.children[i:], curNode.parent.children[i+1:])
 				}
@@ -202,6 +202,8 @@ func (f *FibStrategyTree) ClearNextHopsEnc(name enc.Name) {
 	node := f.root.findExactMatchEntryEnc(name)
 	if node != nil {
 		node.nexthops = make([]*FibNextHopEntry, 0)
+		delete(f.fibPrefixes, name.Hash())
+		node.pruneIfEmpty()
 	}
 }
 
